@@ -38,7 +38,8 @@ EXTENDS Integers, Sequences, FiniteSets, TLC
 
 CONSTANTS AddrNegCountPanic,   \* TRUE = code as found
           OfflineSigSkipped,   \* TRUE = code as found
-          Level                \* 0 base frames and counts only, 1 quick, 2 thorough (more replacement bytes)
+          Level,               \* 0 base frames and counts only, 1 quick, 2 thorough (more replacement bytes)
+          ExtraBases           \* function: command name -> set of further payloads (seeded random byte strings)
 
 VARIABLES phase, act
 vars == <<phase, act>>
@@ -324,7 +325,7 @@ Do(kind, f) == /\ phase' = phase
                           dres |-> ReadMessageDesign(f).r]
 
 Init == phase = "run" /\ act = [name |-> "Init"]
-Next == \E cmd \in Cmds : \E b \in Bases(cmd) :
+Next == \/ \E cmd \in Cmds : \E b \in Bases(cmd) :
            \/ Do("base", Frame(cmd, b))
            \/ Level >= 1 /\ \E i \in Cuts(b) : Do("trunc", Frame(cmd, Take(b, i)))
            \/ Level >= 1 /\ \E i \in Positions(b) : \E x \in ReplBytes \cup {(b[i] + 1) % 256} : x # b[i] /\ Do("byte", Frame(cmd, SetAt(b, i, x)))
@@ -336,6 +337,7 @@ Next == \E cmd \in Cmds : \E b \in Bases(cmd) :
            \/ Do("checksum", [Frame(cmd, b) EXCEPT !.cks = "flip"])
            \/ \E h \in {0, 3, 23} : Do("header", [Frame(cmd, b) EXCEPT !.hdr = h])
            \/ Do("magic", [Frame(cmd, b) EXCEPT !.magic = "bad", !.lenf = "huge", !.cks = "flip"])
+        \/ \E cmd \in Cmds : \E b \in ExtraBases[cmd] : Do("random", Frame(cmd, b)) \/ Do("randomtrail", Frame(cmd, b \o <<0>>))
 Spec == Init /\ [][Next]_vars
 
 (******************************* properties *********************************)
